@@ -1,6 +1,134 @@
 (** C12 - Middlewares gate admission and events: nothing passes that a middleware rejected.
     Statements only; every proof is `exact <lemma>`. *)
-From SioV Require Import Base.GoSem Sio.Middleware Sio.MiddlewareProofs.
+From SioV Require Import Base.GoSem Sio.Middleware Sio.MiddlewareProofs Sio.MiddlewareAdapterProofs
+  Sio.MiddlewareAdmProofs.
+
+(** ** Admission through the namespace middlewares
+
+    Quantifiers: any number of admission threads [ts0] (each: a socket id, a connection, and what
+    each registered middleware would do for this socket/handshake - Join calls on named rooms,
+    then accept or reject with an error, a string or structured data; chains of ANY length), with
+    pairwise distinct socket ids, all about to start ([fresh]); ANY schedule [sched] interleaving
+    their steps (one step = one critical section of the code) and their handler goroutines;
+    [s], [ts] = namespace state and threads at that point. *)
+
+(** If a socket is visible in any way - listed in the namespace, member of its own room, flagged
+    connected, reached by some broadcast (any rooms / except), its connection handlers ran, CONNECT
+    was sent to the client, entered in the connection's tables - then every middleware of its chain
+    ran exactly once, in registration order, and every one accepted. *)
+Theorem C12_connected_only_after_all_accept : forall ts0 sched s ts t,
+  fresh ts0 -> run sched (init ts0) = (s, ts) -> In t ts ->
+  visible s (t_sid t) ->
+  mw_calls (t_sid t) (trace s) = seq 0 (length (t_chain t)) /\
+  Forall (fun b => accepts b = true) (t_chain t).
+Proof. exact connected_only_after_all_accept. Qed.
+
+(** In particular, while the chain is still running nothing of the socket is visible. *)
+Theorem C12_invisible_during_chain : forall ts0 sched s ts t i,
+  fresh ts0 -> run sched (init ts0) = (s, ts) -> In t ts ->
+  t_pc t = PMw i -> ~ visible s (t_sid t).
+Proof. exact invisible_during_chain. Qed.
+
+(** The first rejection stops the chain: if middleware j is the first that rejects, the calls made
+    for this socket are, at every moment, a prefix of 0..j (no later middleware ever runs, none
+    runs twice, order is registration order). *)
+Theorem C12_first_rejection_stops : forall ts0 sched s ts t j b,
+  fresh ts0 -> run sched (init ts0) = (s, ts) -> In t ts ->
+  nth_error (t_chain t) j = Some b -> accepts b = false -> acc_prefix (t_chain t) j ->
+  exists n, (n <= S j)%nat /\ mw_calls (t_sid t) (trace s) = seq 0 n.
+Proof. exact first_rejection_stops. Qed.
+
+(** A CONNECT_ERROR is only ever sent for a socket whose chain rejected; its message is the first
+    rejection (an error: its text; a string: itself; structured data: itself); it is the only
+    packet sent in answer to that CONNECT; and from the moment it is queued nothing of the socket
+    is on the server ([gone]: socket store, both adapter maps - whatever rooms the middlewares
+    joined -, connected flag, connection tables, broadcast reach, handlers never ran). *)
+Theorem C12_connect_error_carries_rejection : forall ts0 sched s ts t m,
+  fresh ts0 -> run sched (init ts0) = (s, ts) -> In t ts ->
+  In (PktConnectError m) (packets (t_sid t) (trace s)) ->
+  (exists j b r, nth_error (t_chain t) j = Some b /\ mb_verdict b = Reject r /\
+                 acc_prefix (t_chain t) j /\ m = rej_message r /\
+                 mw_calls (t_sid t) (trace s) = seq 0 (S j)) /\
+  packets (t_sid t) (trace s) = [PktConnectError m] /\
+  gone s (t_sid t).
+Proof. exact connect_error_carries_rejection. Qed.
+
+(** A rejected socket leaves nothing - already before CONNECT_ERROR is sent, and for ever after
+    (the statement holds at every later point of every schedule). *)
+Theorem C12_rejected_leaves_nothing : forall ts0 sched s ts t r,
+  fresh ts0 -> run sched (init ts0) = (s, ts) -> In t ts ->
+  t_pc t = PRejected r \/ t_pc t = PSendError r ->
+  gone s (t_sid t).
+Proof. exact rejected_leaves_nothing. Qed.
+
+(** Progress: from ANY state, an admission scheduled alone for (chain length + 8) steps has
+    terminated, admitted or rejected ... *)
+Theorem C12_admission_completes : forall n s ts t, nth_error ts n = Some t ->
+  exists t', nth_error (snd (run (repeat (n, false) (length (t_chain t) + 8)) (s, ts))) n = Some t' /\
+             (t_pc t' = PAdmitted \/ exists r, t_pc t' = PRejected r).
+Proof. exact admission_completes. Qed.
+
+(** ... and what the two outcomes mean, under every schedule. *)
+Theorem C12_admitted_state : forall ts0 sched s ts t,
+  fresh ts0 -> run sched (init ts0) = (s, ts) -> In t ts -> t_pc t = PAdmitted ->
+  Forall (fun b => accepts b = true) (t_chain t) /\
+  mw_calls (t_sid t) (trace s) = seq 0 (length (t_chain t)) /\
+  packets (t_sid t) (trace s) = [PktConnect (t_sid t)] /\
+  In (t_sid t) (store s) /\ In (t_sid t) (conn_flag s) /\
+  In (t_sid t) (members (adp s) (ROwn (t_sid t))) /\
+  In (t_sid t, t_sid t) (map (fun p => (snd p, snd p)) (c_socks s)).
+Proof. exact admitted_state. Qed.
+
+Theorem C12_rejected_state : forall ts0 sched s ts t r,
+  fresh ts0 -> run sched (init ts0) = (s, ts) -> In t ts -> t_pc t = PRejected r ->
+  (exists j b, nth_error (t_chain t) j = Some b /\ mb_verdict b = Reject r /\ acc_prefix (t_chain t) j /\
+               mw_calls (t_sid t) (trace s) = seq 0 (S j)) /\
+  packets (t_sid t) (trace s) = [PktConnectError (rej_message r)] /\
+  gone s (t_sid t).
+Proof. exact rejected_state. Qed.
+
+(** The chain as a function ([run_chain], the port of Namespace.runMiddlewares) predicts the
+    calls and the outcome of every terminated admission, whatever the schedule and whoever else
+    is connecting (this is what lets the live rig compare each connection with a solo model run). *)
+Theorem C12_chain_function_agrees : forall ts0 sched s ts t,
+  fresh ts0 -> run sched (init ts0) = (s, ts) -> In t ts ->
+  t_pc t = PAdmitted \/ (exists r, t_pc t = PRejected r) ->
+  mw_calls (t_sid t) (trace s) = fst (run_chain (t_chain t)) /\
+  match snd (run_chain (t_chain t)) with
+  | None => t_pc t = PAdmitted
+  | Some r => t_pc t = PRejected r
+  end.
+Proof. exact chain_function_agrees. Qed.
+
+(** Threads never change their socket id, connection or chain. *)
+Theorem C12_threads_static : forall sched st, map t_static (snd (run sched st)) = map t_static (snd st).
+Proof. exact run_static. Qed.
+
+(** The invariant behind all of the above: in every reachable state the adapter's two maps agree
+    and what the namespace shows about a socket is a function of its own admission's progress. *)
+Theorem C12_reachable_inv : forall ts0 sched s ts t,
+  fresh ts0 -> run sched (init ts0) = (s, ts) -> In t ts -> consistent (adp s) /\ tinv s t.
+Proof. exact reachable_inv. Qed.
+
+(** Non-vacuity: three clients; the second is rejected by its second middleware after both
+    middlewares joined it to rooms; an interleaved schedule. *)
+Example C12_example :
+  let a := mkMwb [[1]]%N Accept in
+  let r := mkMwb [[2; 3]]%N (Reject (RStr [7]%N)) in
+  let ts0 := [new_adm 10 1 [a; a]; new_adm 11 2 [a; r; a]; new_adm 12 3 []]%N in
+  let sched := flat_map (fun _ => [(0, false); (1, false); (2, false); (0, true); (2, true)]%nat)
+                        (seq 0 12) in
+  let '(s, ts) := run sched (init ts0) in
+  fresh ts0 /\
+  map t_pc ts = [PAdmitted; PRejected (RStr [7]%N); PAdmitted] /\
+  store s = [12; 10]%N /\
+  map fst (a_sids (adp s)) = [10; 12]%N /\
+  mw_calls 11%N (trace s) = [0; 1]%nat /\
+  packets 11%N (trace s) = [PktConnectError (MText [7]%N)] /\
+  handler_runs 10%N (trace s) = 1%nat /\ handler_runs 11%N (trace s) = 0%nat.
+Proof.
+  vm_compute. repeat split; auto; repeat constructor; simpl; intuition discriminate.
+Qed.
 
 (** ** Per-socket event middlewares (for every chain, event, argument list, handler signature -
        with or without acknowledgement parameter -, decoder, connected flag) *)
